@@ -23,17 +23,17 @@ BASE_B = dist.BatSpec(soc=50.0, cap=1000.0, excl=0.0, incl=1000.0)
 BASE_I = dist.InvSpec(excl=0.0, incl=1000.0)
 BAT_V = {
     "normal": BASE_B,
-    "tight": replace(BASE_B, incl=400.0),
+    "tight": replace(BASE_B, incl=400.6),
     "full": replace(BASE_B, soc=80.0),
     "empty": replace(BASE_B, soc=20.0),
-    "excl": replace(BASE_B, excl=100.0),
+    "excl": replace(BASE_B, excl=100.4),
 }
 INV_V = {
     "normal": BASE_I,
-    "tight": replace(BASE_I, incl=300.0),
+    "tight": replace(BASE_I, incl=300.4),
     "excl": replace(BASE_I, excl=150.0),
 }
-REQS = (900.0, -900.0, 250.0)
+REQS = (900.0, -900.0, 250.0, 100.4)
 EVENTS = (
     [("bat", g, v) for g in (0, 1) for v in ("tight", "full", "excl", "normal")]
     + [("inv", g, v) for g in (0, 1) for v in ("tight", "excl", "normal")]
